@@ -37,9 +37,16 @@ type Case struct {
 	Args  []Arg    `json:"args"`  // supplied arguments (omitted optionals are simply absent at the end)
 	Shape []string `json:"shape"` // fine argument classes (below, negative, zero, inside, =length, beyond, ...)
 	Cell  string   `json:"cell"`  // method name used for the finding key
+	// two-step family ("arr2"): Recv0 is the literal, Pre the first (capacity-changing) call applied
+	// to it; Recv is then the receiver the model expects before the second call
+	Pre   string `json:"pre,omitempty"`
+	Recv0 any    `json:"recv0,omitempty"`
 }
 
 func (c *Case) String() string {
+	if c.Pre != "" {
+		return "$r = " + lit(c.Recv0) + "; " + preSrc(c.Pre) + " $r" + strings.TrimPrefix(callSrc(c, atoms{}, true), lit(c.Recv))
+	}
 	return callSrc(c, atoms{}, true)
 }
 
@@ -182,11 +189,16 @@ func itemArgs(items []any) []Arg {
 	return r
 }
 
-var pushPool = []any{9, "x", []any{8}}
-var concatPool = []any{9, []any{8}, []any{[]any{7}, 8}, []any{}}
+// pools are the variadic item pools of one family.
+type pools struct{ push, concat []any }
+
+var fullPools = pools{push: []any{9, "x", []any{8}}, concat: []any{9, []any{8}, []any{[]any{7}, 8}, []any{}}}
+
+// the two-step family uses smaller item pools (still every tuple of 0-3 items over them)
+var reducedPools = pools{push: []any{"x", []any{8}}, concat: []any{9, []any{8}, []any{}}}
 
 // genArr enumerates every argument tuple of method m for one receiver.
-func genArr(m string, recv []any, at atoms, quick bool, emit func(*Case)) {
+func genArr(m string, recv []any, at atoms, pl pools, emit func(*Case)) {
 	n := len(recv)
 	mkc := func(shape []string, args ...Arg) {
 		emit(&Case{Fam: "arr", M: m, Cell: m, Recv: recv, Args: args, Shape: shape})
@@ -195,11 +207,11 @@ func genArr(m string, recv []any, at atoms, quick bool, emit func(*Case)) {
 	case "pop", "shift", "reverse", "sort", "length":
 		mkc([]string{})
 	case "push", "unshift":
-		for _, items := range itemTuples(pushPool, 3) {
+		for _, items := range itemTuples(pl.push, 3) {
 			mkc([]string{itemsClass(len(items))}, itemArgs(items)...)
 		}
 	case "concat":
-		for _, items := range itemTuples(concatPool, 3) {
+		for _, items := range itemTuples(pl.concat, 3) {
 			mkc([]string{itemsClass(len(items))}, itemArgs(items)...)
 		}
 	case "slice":
@@ -212,7 +224,7 @@ func genArr(m string, recv []any, at atoms, quick bool, emit func(*Case)) {
 		}
 	case "splice":
 		mkc([]string{"omitted", "omitted", "items=0"})
-		tuples := itemTuples(pushPool, 3)
+		tuples := itemTuples(pl.push, 3)
 		for _, s := range idxPool(n) {
 			mkc([]string{idxClass(s, n), "omitted", "items=0"}, vArg(s))
 			for _, d := range countPool(n) {
@@ -551,4 +563,100 @@ func callSrc(c *Case, at atoms, pretty bool) string {
 		}
 	}
 	return r + "->" + m + "(" + strings.Join(p, ", ") + ")"
+}
+
+// ---- two-step family: one capacity-changing call, then every method x argument tuple ------------
+
+var preSteps = []string{"push1", "push2", "pop", "shift", "unshift1", "splice-shrink", "slice-copy", "reverse", "sort"}
+
+func preSrc(pre string) string {
+	switch pre {
+	case "push1":
+		return "$r->push(9);"
+	case "push2":
+		return `$r->push(9, "x");`
+	case "pop":
+		return "$r->pop();"
+	case "shift":
+		return "$r->shift();"
+	case "unshift1":
+		return `$r->unshift("x");`
+	case "splice-shrink":
+		return "$r->splice(0, 1);"
+	case "slice-copy":
+		return "$r = $r->slice(0);"
+	case "reverse":
+		return "$r->reverse();"
+	case "sort":
+		return "$r->sort();"
+	}
+	panic("preSrc: " + pre)
+}
+
+// applyPre is the model of the first step; ok=false when the step is not applied to this receiver
+// (sort of a receiver with a nested array: its order has two accepted answers, see expectArr).
+func applyPre(pre string, recv []any) ([]any, bool) {
+	n := len(recv)
+	switch pre {
+	case "push1":
+		return append(cp(recv), 9), true
+	case "push2":
+		return append(cp(recv), 9, "x"), true
+	case "pop":
+		if n == 0 {
+			return cp(recv), true
+		}
+		return cp(recv[:n-1]), true
+	case "shift":
+		if n == 0 {
+			return cp(recv), true
+		}
+		return cp(recv[1:]), true
+	case "unshift1":
+		return append([]any{"x"}, recv...), true
+	case "splice-shrink":
+		one := 1
+		_, after := jsSplice(recv, 0, &one, nil)
+		return after, true
+	case "slice-copy":
+		return cp(recv), true
+	case "reverse":
+		return jsReverse(recv), true
+	case "sort":
+		if hasNested(recv) {
+			return nil, false
+		}
+		return jsSortStable(recv, strJS), true
+	}
+	panic("applyPre: " + pre)
+}
+
+// arr2Receivers: all lists of length 0-3 (thorough 0-4) over {I1, S} plus three receivers with nested arrays.
+func arr2Receivers(quick bool, at atoms) [][]any {
+	maxLen := 3
+	if !quick {
+		maxLen = 4
+	}
+	r := lists([]any{at.I1, at.S}, 0, maxLen)
+	nested := []any{at.I1}
+	r = append(r, []any{nested}, []any{at.I1, nested}, []any{nested, at.S, nested})
+	return r
+}
+
+func genArr2(m string, recv0 []any, at atoms, emit func(*Case)) {
+	for _, pre := range preSteps {
+		r1, ok := applyPre(pre, recv0)
+		if !ok {
+			continue
+		}
+		genArr(m, r1, at, reducedPools, func(c *Case) {
+			if c.Cell == "callback" {
+				return // the $this closure is covered (and keyed) once, in the one-step family
+			}
+			c.Fam = "arr2"
+			c.Pre = pre
+			c.Recv0 = recv0
+			emit(c)
+		})
+	}
 }
